@@ -26,7 +26,7 @@ RELATED = {
 
 
 # changes whose effect belongs to another property's check (a shallow container clone is C10's / C04's business)
-EXTRA = {"C03-I": ["C03", "C10", "C04"], "C10-J": ["C10", "C13"]}
+EXTRA = {"C03-I": ["C03", "C10", "C04"], "C10-J": ["C10", "C13"], "C03-J": ["C03", "C11"]}
 
 
 def sh(cmd, cwd=None, env=None, timeout=3600):
@@ -91,6 +91,9 @@ def main():
         results = json.load(open(path))
     with cf.ThreadPoolExecutor(jobs) as ex:
         for r in ex.map(lambda s: one(s, suite), seeds):
+            if not suite and results.get(r["seed"], {}).get("suite_ok") is not None:
+                # suite result of the earlier confirmation of the same patch is kept
+                r["suite"], r["suite_ok"] = results[r["seed"]].get("suite"), results[r["seed"]].get("suite_ok")
             results[r["seed"]] = r
             ok = r.get("demo_clean") == 0 and r.get("demo_patched") == 1 and (r.get("suite_ok", True))
             print(r["seed"], "confirmed" if ok else "NOT-CONFIRMED", "caught_by=" + ",".join(r.get("caught_by", [])), r.get("error", ""), flush=True)
